@@ -240,6 +240,12 @@ impl<'a> Parser<'a> {
             }
             Token::Num(i) => {
                 self.get_next_token()?;
+                // a literal directly followed by a literal (`.5.5`, `1.5.5`) is a malformed number, not a product
+                if matches!(self.current_token, Token::Num(_)) {
+                    return Err(ParseError::UnableToParse(
+                        "A number cannot directly follow a number".to_string(),
+                    ));
+                }
                 self.implicit_multiply(Node::Number(i))
             }
             Token::Pi => {
